@@ -17,8 +17,11 @@ TInit == /\ tid \in 1..Len(Traces) /\ l = 1
          /\ InitWith([kind |-> Traces[tid].cfg.kind, max |-> Traces[tid].cfg.max,
                       dlm |-> Traces[tid].cfg.dlm, n |-> Traces[tid].cfg.n], Traces[tid].str)
 
+\* "the same up to the first close request": a run that asked to close is compared only up to there
 SameAsOnePiece == (~obs'.paused) =>
-                    LET o1 == AddEvents(O0, E.one, 1, FALSE) IN o1.ev = obs'.ev /\ o1.closed = obs'.closed
+                    LET o1 == AddEvents(O0, E.one, 1, FALSE) IN
+                    IF o1.closed = obs'.closed THEN o1.ev = obs'.ev
+                    ELSE IF o1.closed THEN IsPrefix(o1.ev, obs'.ev) ELSE IsPrefix(obs'.ev, o1.ev)
 WantOK == (T.haswant /\ l = Len(T.ev)) => (pos' = Len(str) /\ RefEvents(ref') = T.want /\ obs'.ev = T.want)
 
 TStep(A) == /\ l <= Len(T.ev) /\ A /\ Inv' /\ SameAsOnePiece /\ WantOK /\ l' = l + 1 /\ UNCHANGED tid
